@@ -10,6 +10,9 @@ type CheckWhen struct {
 }
 
 func (y CheckWhen) CheckContainerPostConstraints(r ChildRequest, s *Selection) (bool, error) {
+	if visible, err := y.checkChoices(r.Selection, r.Meta); !visible || err != nil {
+		return visible, err
+	}
 	if meta.IsList(r.Meta) {
 		// 'when' on a list is about each item, see CheckListPostConstraints
 		return true, nil
@@ -24,7 +27,27 @@ func (y CheckWhen) CheckFieldPreConstraints(r *FieldRequest, hnd *ValueHandle) (
 		// container that holds the leaf, as it is when the container is read
 		s = s.parent
 	}
+	if visible, err := y.checkChoices(s, r.Meta); !visible || err != nil {
+		return visible, err
+	}
 	return y.check(s, r.Meta)
+}
+
+// checkChoices holds the conditions of the choice and the case a node lies in (their own, or those
+// a uses or augment put on them) against the node that holds the choice: choices and cases are
+// not in the data, nobody else asks for them
+func (y CheckWhen) checkChoices(holder *Selection, m meta.Meta) (bool, error) {
+	for p := m.Parent(); p != nil; p = p.Parent() {
+		switch p.(type) {
+		case *meta.Choice, *meta.ChoiceCase:
+			if visible, err := y.check(holder, p); !visible || err != nil {
+				return visible, err
+			}
+		default:
+			return true, nil
+		}
+	}
+	return true, nil
 }
 
 func (y CheckWhen) CheckListPostConstraints(r ListRequest, child *Selection, key []val.Value) (bool, bool, error) {
